@@ -37,16 +37,16 @@ func mayReturnNilNil(c *core.Ctx) map[*ssa.Function]bool {
 }
 
 type nilFlow struct {
-	c       *core.Ctx
-	p       *core.Prog
-	rule    string
-	reach   map[*ssa.Function]bool
-	tainted map[ssa.Value]string // value -> how it got tainted (one step)
-	viaParam map[ssa.Value]bool  // the chain from the source passes through a parameter
-	prev    map[ssa.Value]ssa.Value
-	fields  map[*types.Var]ssa.Value
-	work    []ssa.Value
-	derefs  map[ssa.Instruction]ssa.Value
+	c          *core.Ctx
+	p          *core.Prog
+	rule       string
+	reach      map[*ssa.Function]bool
+	tainted    map[ssa.Value]string // value -> how it got tainted (one step)
+	viaParam   map[ssa.Value]bool   // the chain from the source passes through a parameter
+	prev       map[ssa.Value]ssa.Value
+	fields     map[*types.Var]ssa.Value
+	work       []ssa.Value
+	derefs     map[ssa.Instruction]ssa.Value
 	fieldLoads map[*types.Var][]ssa.Value
 	callers    map[*ssa.Function][]ssa.CallInstruction
 }
